@@ -30,10 +30,12 @@ func TestMain(m *testing.M) { hx.Main(m, run) }
 
 // Case: which secret, under which environment of the draw.
 type Case struct {
-	Kind     string // reseed-nonces | reseed-exchange | reseed-srp | clock-nonce | clock-exponent
+	Kind     string // reseed-nonces | reseed-exchange | reseed-srp | clock-nonce | clock-exponent | reseed-exponent-params
 	Seed     int64  // value the process-global math/rand is seeded with (reseed kinds)
 	G        int32
 	Password string
+	Prime    string         `json:",omitempty"` // reseed-exponent-params: dh_prime (hex) as a server may send it; the client does not validate it
+	GA       string         `json:",omitempty"`
 	Scenario *scen.Scenario `json:",omitempty"`
 	Found    string         `json:",omitempty"` // how the secret was reproduced
 }
@@ -204,6 +206,20 @@ func oracle(c *Case) error {
 			if b1.Cmp(b2) == 0 {
 				return fmt.Errorf("the DH exponent b is reproducible from the process-global math/rand state (seed %d)", c.Seed)
 			}
+		case "reseed-exponent-params":
+			// the exponent under DH parameters of the server's choosing (small groups, generators of small order): whatever
+			// path the parameters steer the draw onto, the global generator's state must not determine it
+			prime, _ := new(big.Int).SetString(c.Prime, 16)
+			ga, _ := new(big.Int).SetString(c.GA, 16)
+			for i := int64(0); i < 8; i++ {
+				mathrand.Seed(c.Seed + i) //nolint:staticcheck
+				b1, _, _ := imath.MakeGAB(c.G, ga, prime)
+				mathrand.Seed(c.Seed + i) //nolint:staticcheck
+				b2, _, _ := imath.MakeGAB(c.G, ga, prime)
+				if b1.Cmp(b2) == 0 {
+					return fmt.Errorf("the DH exponent b is reproducible from the process-global math/rand state (seed %d) with dh_prime=%s g=%d", c.Seed+i, c.Prime, c.G)
+				}
+			}
 		default:
 			return fmt.Errorf("INFRA: unknown kind %s", c.Kind)
 		}
@@ -232,11 +248,66 @@ func TestC19(t *testing.T) {
 		}
 		return
 	}
+	t.Run("exponent-params-enumerated", func(t *testing.T) {
+		idx, nsh := 0, hx.NShards()
+		var n int64
+		for _, pr := range []string{"7", "b", "d", "17", "2f", "3b", "1fffffffffffffff", ref.DHPrime.Text(16)} {
+			prime, _ := new(big.Int).SetString(pr, 16)
+			for g := int32(2); g <= 7; g++ {
+				r := new(big.Int).Mod(big.NewInt(int64(g)), prime)
+				if r.Sign() == 0 || r.Cmp(big.NewInt(1)) == 0 || r.Cmp(new(big.Int).Sub(prime, big.NewInt(1))) == 0 {
+					continue
+				}
+				idx++
+				if idx%nsh != run.Shard%nsh {
+					continue
+				}
+				ga := new(big.Int).SetBytes(hx.Det(run.Seed*977+uint64(idx), 256))
+				ga.Mod(ga, new(big.Int).Sub(prime, big.NewInt(2))).Add(ga, big.NewInt(2))
+				c := &Case{Kind: "reseed-exponent-params", Seed: int64(run.Seed)*1000 + int64(idx)*16, G: g, Prime: pr, GA: ga.Text(16)}
+				cls := []string{"kind:" + c.Kind}
+				if len(pr) < 20 {
+					cls = append(cls, "small-group")
+				}
+				run.Case(true, evid.Hash(c.Kind, c.Seed, c.G, c.Prime, c.GA), cls...)
+				n++
+				if err := oracle(c); err != nil {
+					if strings.HasPrefix(err.Error(), "INFRA:") {
+						t.Fatalf("%v", err)
+					}
+					p := run.ViolationNamed(fmt.Sprintf("params-%s-g%d", pr[:min(len(pr), 8)], g), c, err.Error())
+					t.Errorf("violation (replay %s): %v", p, err)
+				}
+			}
+		}
+		run.Exhaustive("DH parameter sets (8 primes x generators 2..7 off 0,1,-1) x 8 seeds (this shard's share)", n)
+	})
+	if t.Failed() {
+		return
+	}
 	t.Run("generated", func(t *testing.T) {
 		rapid.Check(t, func(t *rapid.T) {
 			c := &Case{Seed: rapid.OneOf(rapid.SampledFrom([]int64{0, 1, 42, -1, 1 << 40}), rapid.Int64()).Draw(t, "seed"), G: rapid.SampledFrom([]int32{3, 4, 7}).Draw(t, "g")}
-			c.Kind = rapid.SampledFrom([]string{"reseed-nonces", "reseed-nonces", "clock-nonce", "clock-exponent", "clock-exponent", "reseed-srp", "reseed-exchange"}).Draw(t, "kind")
+			c.Kind = rapid.SampledFrom([]string{"reseed-nonces", "reseed-nonces", "clock-nonce", "clock-exponent", "clock-exponent", "reseed-srp", "reseed-exchange", "reseed-exponent-params", "reseed-exponent-params"}).Draw(t, "kind")
 			switch c.Kind {
+			case "reseed-exponent-params":
+				// primes small enough that g has a small order, and the real one; g is kept off 0, 1 and -1 modulo the prime
+				pr := rapid.SampledFrom([]string{"7", "b", "d", "17", "2f", "1fffffffffffffff", ref.DHPrime.Text(16)}).Draw(t, "prime")
+				prime, _ := new(big.Int).SetString(pr, 16)
+				var gs []int32
+				for g := int32(2); g <= 7; g++ {
+					r := new(big.Int).Mod(big.NewInt(int64(g)), prime)
+					if r.Sign() != 0 && r.Cmp(big.NewInt(1)) != 0 && r.Cmp(new(big.Int).Sub(prime, big.NewInt(1))) != 0 {
+						gs = append(gs, g)
+					}
+				}
+				c.G = rapid.SampledFrom(gs).Draw(t, "g-for-prime")
+				ga := new(big.Int).SetBytes(hx.FixedBytes(t, "ga", 256))
+				ga.Mod(ga, new(big.Int).Sub(prime, big.NewInt(2))).Add(ga, big.NewInt(2))
+				c.Prime, c.GA = pr, ga.Text(16)
+				if len(pr) < 20 {
+					run.Class("small-group", 1)
+				}
 			case "reseed-srp":
 				c.Password = rapid.StringN(1, 12, 40).Draw(t, "password")
 			case "reseed-exchange":
@@ -250,7 +321,7 @@ func TestC19(t *testing.T) {
 				sc.ReseedGlobal = &seed
 				c.Scenario = sc
 			}
-			run.Case(true, evid.Hash(c.Kind, c.Seed, c.G, c.Password), "kind:"+c.Kind)
+			run.Case(true, evid.Hash(c.Kind, c.Seed, c.G, c.Password, c.Prime, c.GA), "kind:"+c.Kind)
 			run.Sample(map[string]any{"kind": c.Kind, "seed": c.Seed, "g": c.G})
 			if err := oracle(c); err != nil {
 				if strings.HasPrefix(err.Error(), "INFRA:") {
